@@ -513,6 +513,45 @@ pub fn rotated_deque(xs: &[i64], rot: usize) -> VecDeque<i64> {
     d
 }
 
+/// A purely stateful callback that returns nothing: the output element type has size ZERO (Vec<()>).  The
+/// protocol is unchanged - one invocation per position, an output of the input's length - and the
+/// collectors behind the returned paths must cope with an element type without a size.
+pub fn zst_cells(case: &Case) -> Vec<(String, Result<(), String>)> {
+    let mut res = Vec::new();
+    if case.outcome != "ok" || case.len2 != case.len {
+        return res;
+    }
+    let xs = xs_of(case.len, X0);
+    let ys = xs_of(case.len2, Y0);
+    let (w, len, form) = (case.w, case.len, case.form.as_str());
+    macro_rules! one {
+        ($name:expr, $v:expr, $v2:expr) => {{
+            let (v, v2) = ($v, $v2);
+            let r = catch(|| -> Result<(), String> {
+                let mut calls = 0usize;
+                let got: usize = match form {
+                    "apply" => v.rolling_apply::<Vec<()>, (), _>(w, |_rm: Option<i64>, _x: i64| { calls += 1; }, None).map(|o| o.len()).unwrap_or(usize::MAX),
+                    "idx" => v.rolling_apply_idx::<Vec<()>, (), _>(w, |_s: Option<usize>, _e: usize, _x: i64| { calls += 1; }, None).map(|o| o.len()).unwrap_or(usize::MAX),
+                    "apply2" => v.rolling2_apply::<Vec<()>, (), _, i64, _>(v2, w, |_rm: Option<(i64, i64)>, _x: (i64, i64)| { calls += 1; }, None).map(|o| o.len()).unwrap_or(usize::MAX),
+                    "idx2" => v.rolling2_apply_idx::<Vec<()>, (), _, i64, _>(v2, w, |_s: Option<usize>, _e: usize, _x: (i64, i64)| { calls += 1; }, None).map(|o| o.len()).unwrap_or(usize::MAX),
+                    "custom" => v.rolling_custom::<Vec<()>, (), _>(w, |_sl| { calls += 1; }, None).map(|o| o.len()).unwrap_or(usize::MAX),
+                    "citer" => v.rolling_custom_iter(w, |_sl| { calls += 1; }).collect_trusted_vec1::<Vec<()>>().len(),
+                    _ => return Ok(()),
+                };
+                if got != len || calls != len {
+                    return Err(format!("an output of {got} unit items after {calls} invocations for {len} positions"));
+                }
+                Ok(())
+            });
+            res.push(($name.to_string(), match r { Ok(x) => x, Err(p) => Err(format!("panicked: {p}")) }));
+        }};
+    }
+    one!("Vec<i64>->Vec<()>/ret", &xs, &ys);
+    let (dx, dy) = (rotated_deque(&xs, xs.len() / 2 + 1), rotated_deque(&ys, 1));
+    one!("VecDeque<i64>->Vec<()>/ret", &dx, &dy);
+    res
+}
+
 /// every (backend, output, path) cell for one case; `f` receives the cell name and the run
 pub fn for_each_cell(case: &Case, full: bool, mut f: impl FnMut(&str, Run)) {
     let xs = xs_of(case.len, X0);
@@ -636,6 +675,12 @@ pub fn replay(args: &Args) {
                 fails.push((cell.to_string(), d));
             }
         });
+        for (cell, r) in zst_cells(&case) {
+            n += 1;
+            if let Err(d) = r {
+                fails.push((cell, d));
+            }
+        }
         rep.cells += n;
         for _ in 0..(n as usize - fails.len()) {
             rep.ok(&case.form, 0.0);
